@@ -15,7 +15,26 @@ def cases(rng, tier, focus):
             for idx in ('default', 'train', 'test', 'disjoint', 'overlap'):
                 yield dict(dx=dx, dy=dy, idx=idx, seed=int(rng.integers(0, 10 ** 6)))
 
-def nontrivial(c): return (c['dx'], c['dy'], c['idx'], c['seed'] % 3)
+def nontrivial(c): return (c.get('pin'), c.get('dx'), c.get('dy'), c.get('idx'), c['seed'] % 3)
+
+# witnesses of the recorded findings (known_findings.txt), evaluated on every run
+PINNED = [dict(pin='gre-small-folds', seed=19), dict(pin='tiny-scale', seed=3)]
+
+def check_pinned(c):
+    from skmatter import metrics as M
+    if c['pin'] == 'gre-small-folds':
+        # the default estimator (Ridge2FoldCV) scores its alphas on folds of 5 samples for 9 features: the winning regularisation can be a large relative cut-off
+        rng = np.random.RandomState(c['seed']); X = rng.randn(20, 9); A = rng.randn(9, 3)
+        v = quiet(M.global_reconstruction_error, X, X @ A)
+        expect(v <= 1e-6, 'post[C13]:GRE-of-a-linear-image-of-X-vanishes@default-estimator-with-cross-validation-folds-smaller-than-the-number-of-features', f"GRE(X, XA) = {v} for X 20x9 of full column rank")
+    if c['pin'] == 'tiny-scale':
+        rng = np.random.RandomState(c['seed']); X = rng.randn(40, 3); Y = rng.randn(40, 4)
+        base = quiet(M.global_reconstruction_error, X, Y)
+        try: v = quiet(M.global_reconstruction_error, 1e-7 * X, Y)
+        except ValueError as e: v = None; msg = str(e)
+        expect(v is not None and abs(v - base) <= 1e-6 * max(1.0, base), 'post[C13]:GRE-unchanged-by-uniform-rescaling-and-shifts-of-either-space@scale-below-the-absolute-variance-tolerance-of-the-default-scaler',
+               f"GRE(X, Y) = {base}; GRE(1e-7 X, Y) " + (f"= {v}" if v is not None else f"raises ValueError: {msg}"))
+    return []
 
 def rand_orth(rng, d, kind):
     if kind == 'rotation':
@@ -27,6 +46,7 @@ def rand_orth(rng, d, kind):
     P = np.eye(d)[rng.permutation(d)]; return P
 
 def check(c):
+    if c.get('pin'): return check_pinned(c)
     from skmatter import metrics as M
     from sklearn.linear_model import Ridge
     rng = np.random.default_rng(c['seed']); n = 24; dx, dy = c['dx'], c['dy']
